@@ -6,7 +6,11 @@ Constant) and every single-fault variant of an otherwise valid class statement a
 typedpy (both guards on and off); the observable facts of each class object, or the exception, are compared
 in Coq with `define` (correspondence); the inclusions of the property and "a faulty statement raises" are
 evaluated in Coq on the OBSERVED classes; inherited-field behaviour, "no class is produced" and
-AbstractStructure are evaluated on the implementation directly."""
+AbstractStructure are evaluated on the implementation directly.  Two enumerated streams (harness/c14lattice.py):
+the default-fault lattice (field spelling x default spelling x falsy/truthy value x placement; judged on the
+implementation: a default the field itself rejects, or a mutable literal, must make the class statement raise) and
+the hierarchy-shape lattice (diamonds and other non-linear shapes x overriding classes x override kinds; through the
+Coq pipeline and, on the implementation, field map against attribute lookup along the MRO)."""
 import copy
 import random
 
@@ -434,12 +438,15 @@ def run(rep, tier):
     cases = []
     findings = []
     kinds = {}        # case index -> {step: fault kind}
+    not_faithful = set()   # programs showing the listed _constants defect, which the model (MRO based) does not have
 
     def reporter(prog):
         src = D.program_src(prog)
 
         def report(key, what, data):
             findings.append((key, what, dict(data, python=src, program=prog)))
+            if key == L.K_CONST_SHADOW:
+                not_faithful.add(id(prog))
         return report
 
     # stream 1: hierarchies
@@ -595,7 +602,9 @@ def run(rep, tier):
             rep.obligation("spec-on-observed:inclusions+faults", n_spec == 0,
                            "%d class statements checked in Coq, %d clause failures" % (
                                sum(1 for p, _, _ in cases for s in p if s[0] == "def"), n_spec))
-            bad = [(ci, m) for ci, m in enumerate(mism) if m]
+            bad = [(ci, m) for ci, m in enumerate(mism) if m and id(cases[ci][0]) not in not_faithful]
+            rep.cov["streams"]["hierarchy"]["programs_with_listed_constants_defect_not_compared"] = len(
+                [1 for ci, m in enumerate(mism) if m and id(cases[ci][0]) in not_faithful])
             rep.obligation("correspondence:define", not bad, "%d programs (%d steps), %d with mismatches" % (
                 len(cases), n_steps, len(bad)))
             if len(unm) * 5 > len(cases):
@@ -615,13 +624,18 @@ def run(rep, tier):
         "re.match is an oracle (Section variable), instantiated per case from the real re module (default validation)",
         "class objects are values keyed by class name (each class of a program has its own name); plain mix-in classes carry no attributes",
         "a statement gives a field at most one of `default=` and `= value`; field declarations contain no class references",
+        "programs on which the implementation shows the listed defect C14-constant-shadows-field-override (reported as a finding "
+        "with the program as replay) are not compared with the model, whose _constants follow the MRO",
         "the ImmutableField subclass fault is checked on the implementation only (model: define_field_class, not corresponded)",
     ]
     return rep.finish(
         rule="programs = hierarchies of depth <= %d (1-3 roots incl. AbstractStructure children, 1-2 Structure bases per class, "
              "mix-ins in any position, own/redeclared/inherited names, _required/_optional naming own and inherited fields, "
              "defaults by default= and by '=', constants), guards on/off; plus every single-fault variant (13 kinds) of a valid "
-             "class statement placed on top of a hierarchy, guard-dependent ones under both settings; distinct = distinct "
+             "class statement placed on top of a hierarchy, guard-dependent ones under both settings; declarations at random as "
+             "bare Field class / python type; ENUMERATED: hierarchy shapes (13) x subsets of overriding classes x override kinds "
+             "(quick: kinds in rotation), default faults = field spellings (63) x default spellings (6) x values x placements "
+             "(quick: 2 placements per combination in rotation; thorough: all 10); distinct = distinct "
              "(#bases, #members, _required?, _optional?, outcome, member kinds) / (fault kind, guards, outcome)" % max_depth)
 
 
